@@ -538,7 +538,7 @@ func runC05Proc(c *fw.Case) {
 	// partial download). Then either the command fails, or what it wrote unpacks to the complete tree.
 	tarIn := c.Chance(1, 3, "cli.tarin")
 	cut := false
-	ignore := map[string]bool{"mtime-symlink": true}
+	ignore := map[string]bool{}
 	if tarIn {
 		tb, ok := gnuTarOf(want)
 		if !ok {
@@ -2162,7 +2162,7 @@ func runSysFaultProc(c *fw.Case, prop string) {
 			if err != nil {
 				return err.Error()
 			}
-			if cat, d := diffTrees(want, got, map[string]bool{"mtime-symlink": true}); cat != "" {
+			if cat, d := diffTrees(want, got, map[string]bool{}); cat != "" {
 				return "the unpacked tree differs (" + cat + "): " + d
 			}
 			return ""
